@@ -275,6 +275,30 @@ def find_let_closure(src, outer, name):
         raise ScanError('lost anchor: closure %s in fn matched %d statements' % (name, len(hits)))
     return hits[0]
 
+def find_match_arm(src, outer, pat):
+    """inside the fn item `outer`: the match arm `PAT => { BODY }` (PAT given as token text) -> (start, end, body_block)"""
+    toks = tokenize(src)
+    want = [t.text for t in tokenize(pat)]
+    if not want:
+        raise ScanError('lost anchor: arm extract without pat=')
+    hits = []
+    for i, t in enumerate(toks):
+        if t.a < outer.body_open or t.b > outer.body_close:
+            continue
+        if [x.text for x in toks[i:i + len(want)]] != want:
+            continue
+        j = i + len(want)
+        if j + 1 >= len(toks) or toks[j].text != '=>' or toks[j + 1].text != '{':
+            continue
+        # the pattern must start the arm (previous token closes the previous arm or opens the match)
+        if i > 0 and toks[i - 1].text not in ('{', '}', ',', '|'):
+            continue
+        k = match_close(toks, j + 1)
+        hits.append((t.a, toks[k].b, src[toks[j + 1].a:toks[k].b]))
+    if len(hits) != 1:
+        raise ScanError('lost anchor: arm `%s` matched %d arms' % (pat, len(hits)))
+    return hits[0]
+
 # --------------------------------------------------------------------------- inside a function
 
 class FnShape:
